@@ -53,6 +53,7 @@ type Entry struct {
 	Conf           *Node         // schema of the config struct (nil when !ConfigRequired)
 	Default        reflect.Value // the default config (struct value), invalid when !ConfigRequired
 	NewDefault     func() interface{}
+	PluginType     reflect.Type
 }
 
 var (
@@ -183,7 +184,7 @@ func Entries() []Entry {
 	Import()
 	var out []Entry
 	for _, e := range plugin.DefaultRegistry().VerifEntries() {
-		en := Entry{Iface: ifaceName(e.PluginType), Name: e.Name, ReturnsFactory: e.ReturnsFactory, ConfigRequired: e.ConfigRequired}
+		en := Entry{Iface: ifaceName(e.PluginType), Name: e.Name, ReturnsFactory: e.ReturnsFactory, ConfigRequired: e.ConfigRequired, PluginType: e.PluginType}
 		if e.ConfigRequired {
 			ct := e.ConstructorType.In(0)
 			if ct.Kind() == reflect.Ptr {
